@@ -272,8 +272,18 @@ def render_hours(h: Hours, indent: str, compact_ranges: bool = True) -> list:
     lines = []
     for wds, ivs in h.groups():
         # write consecutive weekdays as a range when possible
+        wrap = None
+        if compact_ranges and 1 < len(wds) < 7 and wds != list(range(wds[0], wds[-1] + 1)):
+            # a run that wraps around the end of the week (sat, sun, mon): TaskJuggler writes 'sat - mon'
+            for k in range(1, len(wds)):
+                run = wds[k:] + wds[:k]
+                if all((run[i + 1] - run[i]) % 7 == 1 for i in range(len(run) - 1)):
+                    wrap = run
+                    break
         if compact_ranges and len(wds) > 1 and wds == list(range(wds[0], wds[-1] + 1)):
             days = f"{DAYS[wds[0]]} - {DAYS[wds[-1]]}"
+        elif wrap:
+            days = f"{DAYS[wrap[0]]} - {DAYS[wrap[-1]]}"
         else:
             days = ", ".join(DAYS[w] for w in wds)
         rng = ", ".join(f"{fmt_hm(s)} - {fmt_hm(e)}" for s, e in ivs)
